@@ -112,6 +112,45 @@ def one(s, stable):
         shutil.rmtree(outdir, ignore_errors=True)
 
 
+ALL = ["C06", "C16", "C07", "C10", "C14", "C15", "C05", "C19", "C09", "C08", "C04", "C11", "C13", "C03", "C20"]
+
+
+def rescan(r):
+    """second pass for a mutant the checks of its own file let through: every other check"""
+    wt = tempfile.mkdtemp(prefix="sfmut-", dir="/var/tmp"); os.rmdir(wt)
+    outdir = tempfile.mkdtemp(prefix="sfmutout-", dir="/var/tmp")
+    try:
+        subprocess.run(["git", "-C", "/repo", "worktree", "add", "-q", "--detach", wt, "HEAD"], check=True)
+        p = os.path.join(wt, r["file"])
+        src = open(p, "rb").read()
+        if src[r["start"]:r["end"]].decode() != r["old"]:
+            r["status"] = "stale-site"
+            return r
+        open(p, "wb").write(src[:r["start"]] + r["new"].encode() + src[r["end"]:])
+        for pid in ALL:
+            if pid in r["checks"] and r["checks"][pid]["exit"] == 0:
+                continue
+            c = subprocess.run(["/verif/check", pid, "quick"], env=dict(os.environ, VERIF_REPO=wt, VERIF_OUT_DIR=outdir, VERIF_WORKERS=os.environ.get("MUT_WORKERS", "6")),
+                               stdout=subprocess.PIPE, stderr=subprocess.STDOUT, text=True)
+            classes = sorted(set(re.findall(r"class=(\S+) key=(.*)", c.stdout)))
+            r["checks"][pid] = {"exit": c.returncode, "violations": ["%s / %s" % (a, b[:100]) for a, b in classes][:3]}
+            if c.returncode == 1:
+                r["status"] = "killed-by-" + pid
+                r["second_pass"] = True
+                sp = os.path.join(OUT, "survivors", re.sub(r"[^A-Za-z0-9_.-]+", "_", r["id"]) + ".diff")
+                if os.path.exists(sp):
+                    os.remove(sp)
+                return r
+            if c.returncode != 0:
+                r["checks"][pid]["tail"] = c.stdout[-400:]
+        r["all_checks"] = True
+        return r
+    finally:
+        subprocess.run(["git", "-C", "/repo", "worktree", "remove", "--force", wt], stdout=subprocess.DEVNULL, stderr=subprocess.DEVNULL)
+        shutil.rmtree(wt, ignore_errors=True)
+        shutil.rmtree(outdir, ignore_errors=True)
+
+
 def summary(results):
     vp = os.path.join(OUT, "verdicts.json")  # hand-written classification of survivors: id -> text
     verdicts = json.load(open(vp)) if os.path.exists(vp) else {}
@@ -150,12 +189,25 @@ def main():
     ap.add_argument("--seed", type=int, default=1)
     ap.add_argument("--only", default="")
     ap.add_argument("--summary", action="store_true")
+    ap.add_argument("--rescan", action="store_true")
     a = ap.parse_args()
     os.makedirs(OUT, exist_ok=True)
     rp = os.path.join(OUT, "results.json")
     results = json.load(open(rp)) if os.path.exists(rp) else {}
     if a.summary:
         summary(results)
+        return
+    if a.rescan:
+        vp = os.path.join(OUT, "verdicts.json")
+        verdicts = json.load(open(vp)) if os.path.exists(vp) else {}
+        todo = [r for r in results.values() if r["status"] == "survived" and not r.get("all_checks") and r["id"] not in verdicts]
+        print("%d survivors to rescan" % len(todo), flush=True)
+        with concurrent.futures.ThreadPoolExecutor(max_workers=a.jobs) as ex:
+            for r in ex.map(rescan, todo):
+                results[r["id"]] = r
+                print(r["id"], r["status"], flush=True)
+                json.dump(results, open(rp, "w"), indent=1, sort_keys=True)
+                summary(results)
         return
     with open("/root/.vp/BASELINE.json") as f:
         stable = json.load(f)["stable_pass"]
